@@ -405,8 +405,7 @@ def canCastInto (r x : Kind) : Bool :=
 /-- write a ufunc result into `out=x`: the result must have x's shape and be castable (`same_kind`)
 to x's dtype class, else ValueError / UFuncTypeError -/
 def writeOut (x r : Arr) : Except Err Arr :=
-  if x.shape.isEmpty then .error .unsupported
-  else if r.shape != x.shape then .error .value
+  if r.shape != x.shape then .error .value
   else if !canCastInto r.kind x.kind then .error .type
   else .ok { r with kind := x.kind }
 
@@ -545,7 +544,7 @@ def apply2 (f : Fn2) (a b : Arr) : Except Err Arr :=
       if q != r || n != m then .error .value else
       .ok ⟨[p, t, n], k, (List.range p).flatMap fun i => (List.range t).flatMap fun l => (List.range n).map fun z =>
         sumOver q fun j => (get a ((i * q + j) * n + z)).mul (get b ((j * t + l) * n + z))⟩
-    | _, _ => .error .unsupported
+    | _, _ => .error .value        -- scalar fields / higher orders: einsum rejects the subscripts
 
 /-- kernels with three array arguments -/
 inductive Fn3 where
@@ -592,7 +591,7 @@ deriving DecidableEq, Repr
 
 def update (u : Upd) (x : Arr) (args : List Arr) : Except Err Arr :=
   match u, args with
-  | .iop op, [e] => inplace op x e
+  | .iop op, [e] => if x.shape.isEmpty then .error .unsupported else inplace op x e
   | .setIx i, [e] => (select i x.shape).bind fun sel => scatter x sel e
   | .setMask, [m, e] => (selectMask m x.shape).bind fun sel => scatter x sel e
   | .iopIx i op, [e] =>
@@ -604,7 +603,8 @@ def update (u : Upd) (x : Arr) (args : List Arr) : Except Err Arr :=
     (selectMask m x.shape).bind fun sel => (inplace op (gather x sel) e).bind fun t => scatter x sel t
   | .out op, [a, b] =>
     match op with
-    | .add | .sub | .mul | .div | .max | .min => (binop op a b).bind fun r => writeOut x r
+    | .add | .sub | .mul | .div | .max | .min =>
+      if x.shape.isEmpty then .error .unsupported else (binop op a b).bind fun r => writeOut x r
     | _ => .error .unsupported
   | .setReal, [e] =>
     if e.kind == .cplx || e.kind == .bool || x.kind == .bool then .error .unsupported else
